@@ -59,7 +59,7 @@ MUTANTS = [
      ("!.cursor = @ + Bits(sl, v),", "!.cursor = @ + Len(v),"),
      "HuffmanMC.tla", {}, ["Tiling"], [], {"Tiling"}),
     ("flatstack-extend-drops-last", "FlatStackMC.tla",
-     ("Extend(vs) == /\\ st' = CopyAll(st, vs)", "Extend(vs) == /\\ st' = CopyAll(st, IF Len(vs) > 1 THEN SubSeq(vs, 1, Len(vs) - 1) ELSE vs)"),
+     ("Extend(vs, hint) == /\\ st' = CopyAll(st, vs)", "Extend(vs, hint) == /\\ st' = CopyAll(st, IF Len(vs) > 1 THEN SubSeq(vs, 1, Len(vs) - 1) ELSE vs)"),
      "FlatStackMC.tla", {"SubjectNames": {"fs_string"}}, ["Denote", "LenOK"], [], {"Denote", "LenOK"}),
 ]
 
